@@ -1,6 +1,7 @@
 //@ PROPERTY C10
 //@ LINK msgpack/msgpack_readers.cpp common/binary_stream_reader.cpp
 //@ CXXFLAGS -DBITSERIALIZER_VERIF_CHUNK_SIZE=16
+//@ MODELDEF VERIF_STRLEN_ZERO
 //@ OVERRIDE _ZN13BitSerializer7Convert6Detail2ToImcSaIcELi0EEEvRKT_RNSt7__cxx1112basic_stringIT0_St11char_traitsIS9_ET1_EE
 // H10a: the two hand-duplicated MsgPack readers (CMsgPackStringReader / CMsgPackStreamReader, msgpack_readers.cpp) must agree
 // on EVERY input: same outcome category, same loaded value, same position - for every read operation.
@@ -44,25 +45,25 @@ DEF(bool, bool) DEF(char, char) DEF(u8, uint8_t) DEF(u16, uint16_t) DEF(u32, uin
 DEF(i8, int8_t) DEF(i16, int16_t) DEF(i32, int32_t) DEF(i64, int64_t) DEF(f32, float) DEF(f64, double) DEF(nil, std::nullptr_t)
 #define DEFO(name, O) VH_EXPORT int vp_h10a_##name(const unsigned char* in, unsigned char* out) { return prop_other<O>(in, out); }
 DEFO(str, OpStr) DEFO(array, OpArray) DEFO(map, OpMap) DEFO(bin, OpBin) DEFO(ts, OpTs) DEFO(type, OpType)
-//@ OBL {"name": "h10a_bool", "family": "h10a", "prop": "vp_h10a_bool", "assume": "va_h10", "in": 20, "out": 24, "unwind": 12, "unwind_fn": {"SkipValueImpl": 1, "^verif_stream_copy$": 12, "^verif_memmove$": 12}, "recursion": {"SkipValueImpl": 0}, "bounds": "every byte string of length <= 5 (thorough: 9) whose first byte is not an array/map header, both policies symbolic", "desc": "string reader vs stream reader, operation bool: same outcome category, value and position", "cassume": ["in[0] <= 5"], "fs": 32}
-//@ OBL {"name": "h10a_char", "family": "h10a", "prop": "vp_h10a_char", "assume": "va_h10", "in": 20, "out": 24, "unwind": 12, "unwind_fn": {"SkipValueImpl": 1, "^verif_stream_copy$": 12, "^verif_memmove$": 12}, "recursion": {"SkipValueImpl": 0}, "bounds": "every byte string of length <= 5 (thorough: 9) whose first byte is not an array/map header, both policies symbolic", "desc": "string reader vs stream reader, operation char: same outcome category, value and position", "cassume": ["in[0] <= 5"], "fs": 32}
-//@ OBL {"name": "h10a_u8", "family": "h10a", "prop": "vp_h10a_u8", "assume": "va_h10", "in": 20, "out": 24, "unwind": 12, "unwind_fn": {"SkipValueImpl": 1, "^verif_stream_copy$": 12, "^verif_memmove$": 12}, "recursion": {"SkipValueImpl": 0}, "bounds": "every byte string of length <= 5 (thorough: 9) whose first byte is not an array/map header, both policies symbolic", "desc": "string reader vs stream reader, operation u8: same outcome category, value and position", "cassume": ["in[0] <= 5"], "fs": 32}
-//@ OBL {"name": "h10a_u16", "family": "h10a", "prop": "vp_h10a_u16", "assume": "va_h10", "in": 20, "out": 24, "unwind": 12, "unwind_fn": {"SkipValueImpl": 1, "^verif_stream_copy$": 12, "^verif_memmove$": 12}, "recursion": {"SkipValueImpl": 0}, "bounds": "every byte string of length <= 5 (thorough: 9) whose first byte is not an array/map header, both policies symbolic", "desc": "string reader vs stream reader, operation u16: same outcome category, value and position", "cassume": ["in[0] <= 5"], "fs": 32}
-//@ OBL {"name": "h10a_u32", "family": "h10a", "prop": "vp_h10a_u32", "assume": "va_h10", "in": 20, "out": 24, "unwind": 12, "unwind_fn": {"SkipValueImpl": 1, "^verif_stream_copy$": 12, "^verif_memmove$": 12}, "recursion": {"SkipValueImpl": 0}, "bounds": "every byte string of length <= 5 (thorough: 9) whose first byte is not an array/map header, both policies symbolic", "desc": "string reader vs stream reader, operation u32: same outcome category, value and position", "cassume": ["in[0] <= 5"], "fs": 32}
-//@ OBL {"name": "h10a_u64", "family": "h10a", "prop": "vp_h10a_u64", "assume": "va_h10", "in": 20, "out": 24, "unwind": 12, "unwind_fn": {"SkipValueImpl": 1, "^verif_stream_copy$": 12, "^verif_memmove$": 12}, "recursion": {"SkipValueImpl": 0}, "bounds": "every byte string of length <= 5 (thorough: 9) whose first byte is not an array/map header, both policies symbolic", "desc": "string reader vs stream reader, operation u64: same outcome category, value and position", "cassume": ["in[0] <= 5"], "fs": 32}
-//@ OBL {"name": "h10a_i8", "family": "h10a", "prop": "vp_h10a_i8", "assume": "va_h10", "in": 20, "out": 24, "unwind": 12, "unwind_fn": {"SkipValueImpl": 1, "^verif_stream_copy$": 12, "^verif_memmove$": 12}, "recursion": {"SkipValueImpl": 0}, "bounds": "every byte string of length <= 5 (thorough: 9) whose first byte is not an array/map header, both policies symbolic", "desc": "string reader vs stream reader, operation i8: same outcome category, value and position", "cassume": ["in[0] <= 5"], "fs": 32}
-//@ OBL {"name": "h10a_i16", "family": "h10a", "prop": "vp_h10a_i16", "assume": "va_h10", "in": 20, "out": 24, "unwind": 12, "unwind_fn": {"SkipValueImpl": 1, "^verif_stream_copy$": 12, "^verif_memmove$": 12}, "recursion": {"SkipValueImpl": 0}, "bounds": "every byte string of length <= 5 (thorough: 9) whose first byte is not an array/map header, both policies symbolic", "desc": "string reader vs stream reader, operation i16: same outcome category, value and position", "cassume": ["in[0] <= 5"], "fs": 32}
-//@ OBL {"name": "h10a_i32", "family": "h10a", "prop": "vp_h10a_i32", "assume": "va_h10", "in": 20, "out": 24, "unwind": 12, "unwind_fn": {"SkipValueImpl": 1, "^verif_stream_copy$": 12, "^verif_memmove$": 12}, "recursion": {"SkipValueImpl": 0}, "bounds": "every byte string of length <= 5 (thorough: 9) whose first byte is not an array/map header, both policies symbolic", "desc": "string reader vs stream reader, operation i32: same outcome category, value and position", "cassume": ["in[0] <= 5"], "fs": 32}
-//@ OBL {"name": "h10a_i64", "family": "h10a", "prop": "vp_h10a_i64", "assume": "va_h10", "in": 20, "out": 24, "unwind": 12, "unwind_fn": {"SkipValueImpl": 1, "^verif_stream_copy$": 12, "^verif_memmove$": 12}, "recursion": {"SkipValueImpl": 0}, "bounds": "every byte string of length <= 5 (thorough: 9) whose first byte is not an array/map header, both policies symbolic", "desc": "string reader vs stream reader, operation i64: same outcome category, value and position", "cassume": ["in[0] <= 5"], "fs": 32}
-//@ OBL {"name": "h10a_f32", "family": "h10a", "prop": "vp_h10a_f32", "assume": "va_h10", "in": 20, "out": 24, "unwind": 12, "unwind_fn": {"SkipValueImpl": 1, "^verif_stream_copy$": 12, "^verif_memmove$": 12}, "recursion": {"SkipValueImpl": 0}, "bounds": "every byte string of length <= 5 (thorough: 9) whose first byte is not an array/map header, both policies symbolic", "desc": "string reader vs stream reader, operation f32: same outcome category, value and position", "cassume": ["in[0] <= 5"], "fs": 32}
-//@ OBL {"name": "h10a_f64", "family": "h10a", "prop": "vp_h10a_f64", "assume": "va_h10", "in": 20, "out": 24, "unwind": 12, "unwind_fn": {"SkipValueImpl": 1, "^verif_stream_copy$": 12, "^verif_memmove$": 12}, "recursion": {"SkipValueImpl": 0}, "bounds": "every byte string of length <= 5 (thorough: 9) whose first byte is not an array/map header, both policies symbolic", "desc": "string reader vs stream reader, operation f64: same outcome category, value and position", "cassume": ["in[0] <= 5"], "fs": 32}
-//@ OBL {"name": "h10a_nil", "family": "h10a", "prop": "vp_h10a_nil", "assume": "va_h10", "in": 20, "out": 24, "unwind": 12, "unwind_fn": {"SkipValueImpl": 1, "^verif_stream_copy$": 12, "^verif_memmove$": 12}, "recursion": {"SkipValueImpl": 0}, "bounds": "every byte string of length <= 5 (thorough: 9) whose first byte is not an array/map header, both policies symbolic", "desc": "string reader vs stream reader, operation nil: same outcome category, value and position", "cassume": ["in[0] <= 5"], "fs": 32}
-//@ OBL {"name": "h10a_str", "family": "h10a", "prop": "vp_h10a_str", "assume": "va_h10", "in": 20, "out": 24, "unwind": 12, "unwind_fn": {"SkipValueImpl": 1, "^verif_stream_copy$": 12, "^verif_memmove$": 12}, "recursion": {"SkipValueImpl": 0}, "bounds": "every byte string of length <= 5 (thorough: 9) whose first byte is not an array/map header, both policies symbolic", "desc": "string reader vs stream reader, operation str: same outcome category, value and position", "cassume": ["in[0] <= 5"], "fs": 32}
-//@ OBL {"name": "h10a_array", "family": "h10a", "prop": "vp_h10a_array", "in": 20, "out": 24, "unwind": 12, "unwind_fn": {"SkipValueImpl": 1, "^verif_stream_copy$": 12, "^verif_memmove$": 12}, "recursion": {"SkipValueImpl": 0}, "bounds": "every byte string of length <= 5 (thorough: 9) whose first byte is not an array/map header, both policies symbolic", "desc": "string reader vs stream reader, operation array: same outcome category, value and position", "cassume": ["(in[1] & 1) == 0 || !((in[2] >= 0x80 && in[2] <= 0x9f) || (in[2] >= 0xdc && in[2] <= 0xdf))", "in[0] <= 5"], "fs": 32}
-//@ OBL {"name": "h10a_map", "family": "h10a", "prop": "vp_h10a_map", "in": 20, "out": 24, "unwind": 12, "unwind_fn": {"SkipValueImpl": 1, "^verif_stream_copy$": 12, "^verif_memmove$": 12}, "recursion": {"SkipValueImpl": 0}, "bounds": "every byte string of length <= 5 (thorough: 9) whose first byte is not an array/map header, both policies symbolic", "desc": "string reader vs stream reader, operation map: same outcome category, value and position", "cassume": ["(in[1] & 1) == 0 || !((in[2] >= 0x80 && in[2] <= 0x9f) || (in[2] >= 0xdc && in[2] <= 0xdf))", "in[0] <= 5"], "fs": 32}
-//@ OBL {"name": "h10a_bin", "family": "h10a", "prop": "vp_h10a_bin", "assume": "va_h10", "in": 20, "out": 24, "unwind": 12, "unwind_fn": {"SkipValueImpl": 1, "^verif_stream_copy$": 12, "^verif_memmove$": 12}, "recursion": {"SkipValueImpl": 0}, "bounds": "every byte string of length <= 5 (thorough: 9) whose first byte is not an array/map header, both policies symbolic", "desc": "string reader vs stream reader, operation bin: same outcome category, value and position", "cassume": ["in[0] <= 5"], "fs": 32}
-//@ OBL {"name": "h10a_ts", "family": "h10a", "prop": "vp_h10a_ts", "assume": "va_h10", "in": 20, "out": 24, "unwind": 12, "unwind_fn": {"SkipValueImpl": 1, "^verif_stream_copy$": 12, "^verif_memmove$": 12}, "recursion": {"SkipValueImpl": 0}, "bounds": "every byte string of length <= 5 (thorough: 9) whose first byte is not an array/map header, both policies symbolic", "desc": "string reader vs stream reader, operation ts: same outcome category, value and position", "cassume": ["in[0] <= 5"], "fs": 32}
-//@ OBL {"name": "h10a_type", "family": "h10a", "prop": "vp_h10a_type", "assume": "va_h10", "in": 20, "out": 24, "unwind": 12, "unwind_fn": {"SkipValueImpl": 1, "^verif_stream_copy$": 12, "^verif_memmove$": 12}, "recursion": {"SkipValueImpl": 0}, "bounds": "every byte string of length <= 5 (thorough: 9) whose first byte is not an array/map header, both policies symbolic", "desc": "string reader vs stream reader, operation type: same outcome category, value and position", "cassume": ["in[0] <= 5"], "fs": 32}
+//@ OBL {"name": "h10a_bool", "family": "h10a", "prop": "vp_h10a_bool", "assume": "va_h10", "in": 20, "out": 24, "unwind": 12, "unwind_fn": {"SkipValueImpl": 1, "^verif_stream_copy$": 12, "^verif_memmove$": 12}, "recursion": {"SkipValueImpl": 0}, "bounds": "every byte string of length <= 9 whose first byte is not an array/map header, both policies symbolic", "desc": "string reader vs stream reader, operation bool: same outcome category, value and position", "cassume": ["in[0] <= 9"], "fs": 32, "unwind_models": 16}
+//@ OBL {"name": "h10a_char", "family": "h10a", "prop": "vp_h10a_char", "assume": "va_h10", "in": 20, "out": 24, "unwind": 12, "unwind_fn": {"SkipValueImpl": 1, "^verif_stream_copy$": 12, "^verif_memmove$": 12}, "recursion": {"SkipValueImpl": 0}, "bounds": "every byte string of length <= 9 whose first byte is not an array/map header, both policies symbolic", "desc": "string reader vs stream reader, operation char: same outcome category, value and position", "cassume": ["in[0] <= 9"], "fs": 32, "unwind_models": 16}
+//@ OBL {"name": "h10a_u8", "family": "h10a", "prop": "vp_h10a_u8", "assume": "va_h10", "in": 20, "out": 24, "unwind": 12, "unwind_fn": {"SkipValueImpl": 1, "^verif_stream_copy$": 12, "^verif_memmove$": 12}, "recursion": {"SkipValueImpl": 0}, "bounds": "every byte string of length <= 9 whose first byte is not an array/map header, both policies symbolic", "desc": "string reader vs stream reader, operation u8: same outcome category, value and position", "cassume": ["in[0] <= 9"], "fs": 32, "unwind_models": 16}
+//@ OBL {"name": "h10a_u16", "family": "h10a", "prop": "vp_h10a_u16", "assume": "va_h10", "in": 20, "out": 24, "unwind": 12, "unwind_fn": {"SkipValueImpl": 1, "^verif_stream_copy$": 12, "^verif_memmove$": 12}, "recursion": {"SkipValueImpl": 0}, "bounds": "every byte string of length <= 9 whose first byte is not an array/map header, both policies symbolic", "desc": "string reader vs stream reader, operation u16: same outcome category, value and position", "cassume": ["in[0] <= 9"], "fs": 32, "unwind_models": 16}
+//@ OBL {"name": "h10a_u32", "family": "h10a", "prop": "vp_h10a_u32", "assume": "va_h10", "in": 20, "out": 24, "unwind": 12, "unwind_fn": {"SkipValueImpl": 1, "^verif_stream_copy$": 12, "^verif_memmove$": 12}, "recursion": {"SkipValueImpl": 0}, "bounds": "every byte string of length <= 9 whose first byte is not an array/map header, both policies symbolic", "desc": "string reader vs stream reader, operation u32: same outcome category, value and position", "cassume": ["in[0] <= 9"], "fs": 32, "unwind_models": 16}
+//@ OBL {"name": "h10a_u64", "family": "h10a", "prop": "vp_h10a_u64", "assume": "va_h10", "in": 20, "out": 24, "unwind": 12, "unwind_fn": {"SkipValueImpl": 1, "^verif_stream_copy$": 12, "^verif_memmove$": 12}, "recursion": {"SkipValueImpl": 0}, "bounds": "every byte string of length <= 9 whose first byte is not an array/map header, both policies symbolic", "desc": "string reader vs stream reader, operation u64: same outcome category, value and position", "cassume": ["in[0] <= 9"], "fs": 32, "unwind_models": 16}
+//@ OBL {"name": "h10a_i8", "family": "h10a", "prop": "vp_h10a_i8", "assume": "va_h10", "in": 20, "out": 24, "unwind": 12, "unwind_fn": {"SkipValueImpl": 1, "^verif_stream_copy$": 12, "^verif_memmove$": 12}, "recursion": {"SkipValueImpl": 0}, "bounds": "every byte string of length <= 9 whose first byte is not an array/map header, both policies symbolic", "desc": "string reader vs stream reader, operation i8: same outcome category, value and position", "cassume": ["in[0] <= 9"], "fs": 32, "unwind_models": 16}
+//@ OBL {"name": "h10a_i16", "family": "h10a", "prop": "vp_h10a_i16", "assume": "va_h10", "in": 20, "out": 24, "unwind": 12, "unwind_fn": {"SkipValueImpl": 1, "^verif_stream_copy$": 12, "^verif_memmove$": 12}, "recursion": {"SkipValueImpl": 0}, "bounds": "every byte string of length <= 9 whose first byte is not an array/map header, both policies symbolic", "desc": "string reader vs stream reader, operation i16: same outcome category, value and position", "cassume": ["in[0] <= 9"], "fs": 32, "unwind_models": 16}
+//@ OBL {"name": "h10a_i32", "family": "h10a", "prop": "vp_h10a_i32", "assume": "va_h10", "in": 20, "out": 24, "unwind": 12, "unwind_fn": {"SkipValueImpl": 1, "^verif_stream_copy$": 12, "^verif_memmove$": 12}, "recursion": {"SkipValueImpl": 0}, "bounds": "every byte string of length <= 9 whose first byte is not an array/map header, both policies symbolic", "desc": "string reader vs stream reader, operation i32: same outcome category, value and position", "cassume": ["in[0] <= 9"], "fs": 32, "unwind_models": 16}
+//@ OBL {"name": "h10a_i64", "family": "h10a", "prop": "vp_h10a_i64", "assume": "va_h10", "in": 20, "out": 24, "unwind": 12, "unwind_fn": {"SkipValueImpl": 1, "^verif_stream_copy$": 12, "^verif_memmove$": 12}, "recursion": {"SkipValueImpl": 0}, "bounds": "every byte string of length <= 9 whose first byte is not an array/map header, both policies symbolic", "desc": "string reader vs stream reader, operation i64: same outcome category, value and position", "cassume": ["in[0] <= 9"], "fs": 32, "unwind_models": 16}
+//@ OBL {"name": "h10a_f32", "family": "h10a", "prop": "vp_h10a_f32", "assume": "va_h10", "in": 20, "out": 24, "unwind": 12, "unwind_fn": {"SkipValueImpl": 1, "^verif_stream_copy$": 12, "^verif_memmove$": 12}, "recursion": {"SkipValueImpl": 0}, "bounds": "every byte string of length <= 9 whose first byte is not an array/map header, both policies symbolic", "desc": "string reader vs stream reader, operation f32: same outcome category, value and position", "cassume": ["in[0] <= 9"], "fs": 32, "unwind_models": 16}
+//@ OBL {"name": "h10a_f64", "family": "h10a", "prop": "vp_h10a_f64", "assume": "va_h10", "in": 20, "out": 24, "unwind": 12, "unwind_fn": {"SkipValueImpl": 1, "^verif_stream_copy$": 12, "^verif_memmove$": 12}, "recursion": {"SkipValueImpl": 0}, "bounds": "every byte string of length <= 9 whose first byte is not an array/map header, both policies symbolic", "desc": "string reader vs stream reader, operation f64: same outcome category, value and position", "cassume": ["in[0] <= 9"], "fs": 32, "unwind_models": 16}
+//@ OBL {"name": "h10a_nil", "family": "h10a", "prop": "vp_h10a_nil", "assume": "va_h10", "in": 20, "out": 24, "unwind": 12, "unwind_fn": {"SkipValueImpl": 1, "^verif_stream_copy$": 12, "^verif_memmove$": 12}, "recursion": {"SkipValueImpl": 0}, "bounds": "every byte string of length <= 9 whose first byte is not an array/map header, both policies symbolic", "desc": "string reader vs stream reader, operation nil: same outcome category, value and position", "cassume": ["in[0] <= 9"], "fs": 32, "unwind_models": 16}
+//@ OBL {"name": "h10a_str", "family": "h10a", "prop": "vp_h10a_str", "assume": "va_h10", "in": 20, "out": 24, "unwind": 12, "unwind_fn": {"SkipValueImpl": 1, "^verif_stream_copy$": 12, "^verif_memmove$": 12}, "recursion": {"SkipValueImpl": 0}, "bounds": "every byte string of length <= 9 whose first byte is not an array/map header, both policies symbolic", "desc": "string reader vs stream reader, operation str: same outcome category, value and position", "cassume": ["in[0] <= 9"], "fs": 32, "unwind_models": 16}
+//@ OBL {"name": "h10a_array", "family": "h10a", "prop": "vp_h10a_array", "in": 20, "out": 24, "unwind": 12, "unwind_fn": {"SkipValueImpl": 1, "^verif_stream_copy$": 12, "^verif_memmove$": 12}, "recursion": {"SkipValueImpl": 0}, "bounds": "every byte string of length <= 9 whose first byte is not an array/map header, both policies symbolic", "desc": "string reader vs stream reader, operation array: same outcome category, value and position", "cassume": ["(in[1] & 1) == 0 || !((in[2] >= 0x80 && in[2] <= 0x9f) || (in[2] >= 0xdc && in[2] <= 0xdf))", "in[0] <= 9"], "fs": 32, "unwind_models": 16}
+//@ OBL {"name": "h10a_map", "family": "h10a", "prop": "vp_h10a_map", "in": 20, "out": 24, "unwind": 12, "unwind_fn": {"SkipValueImpl": 1, "^verif_stream_copy$": 12, "^verif_memmove$": 12}, "recursion": {"SkipValueImpl": 0}, "bounds": "every byte string of length <= 9 whose first byte is not an array/map header, both policies symbolic", "desc": "string reader vs stream reader, operation map: same outcome category, value and position", "cassume": ["(in[1] & 1) == 0 || !((in[2] >= 0x80 && in[2] <= 0x9f) || (in[2] >= 0xdc && in[2] <= 0xdf))", "in[0] <= 9"], "fs": 32, "unwind_models": 16}
+//@ OBL {"name": "h10a_bin", "family": "h10a", "prop": "vp_h10a_bin", "assume": "va_h10", "in": 20, "out": 24, "unwind": 12, "unwind_fn": {"SkipValueImpl": 1, "^verif_stream_copy$": 12, "^verif_memmove$": 12}, "recursion": {"SkipValueImpl": 0}, "bounds": "every byte string of length <= 9 whose first byte is not an array/map header, both policies symbolic", "desc": "string reader vs stream reader, operation bin: same outcome category, value and position", "cassume": ["in[0] <= 9"], "fs": 32, "unwind_models": 16}
+//@ OBL {"name": "h10a_ts", "family": "h10a", "prop": "vp_h10a_ts", "assume": "va_h10", "in": 20, "out": 24, "unwind": 12, "unwind_fn": {"SkipValueImpl": 1, "^verif_stream_copy$": 12, "^verif_memmove$": 12}, "recursion": {"SkipValueImpl": 0}, "bounds": "every byte string of length <= 9 whose first byte is not an array/map header, both policies symbolic", "desc": "string reader vs stream reader, operation ts: same outcome category, value and position", "cassume": ["in[0] <= 9"], "fs": 32, "unwind_models": 16}
+//@ OBL {"name": "h10a_type", "family": "h10a", "prop": "vp_h10a_type", "assume": "va_h10", "in": 20, "out": 24, "unwind": 12, "unwind_fn": {"SkipValueImpl": 1, "^verif_stream_copy$": 12, "^verif_memmove$": 12}, "recursion": {"SkipValueImpl": 0}, "bounds": "every byte string of length <= 9 whose first byte is not an array/map header, both policies symbolic", "desc": "string reader vs stream reader, operation type: same outcome category, value and position", "cassume": ["in[0] <= 9"], "fs": 32, "unwind_models": 16}
 //@ VEC * 0200d080000000000000000000000000000000
 //@ VEC * 0403a3616263000000000000000000000000
 //@ VEC * 0601d6ff102030400000000000000000000000
